@@ -249,7 +249,7 @@ def detachPrev (s : St) : St × Option Nat × Bool :=
   | none => (s, none, false)
   | some p =>
     match s.recs[p]? with
-    | none => (s, none, false)
+    | none => ({ s with routine := none }, none, false)   -- unreachable: `routine` always points into `recs`
     | some pr =>
       let sc := cancelOpt s pr.cancelOf
       ({ sc with recs := sc.recs.set p { pr with cancelOf := none }, routine := none },
@@ -609,10 +609,11 @@ def Call.quiet (c : Call) : Bool :=
   | .parked _ | .finished => true
   | _ => false
 
-/-- nothing can move without a new API call, script command or environment action -/
+/-- nothing can move without a new API call, script command or environment action (in particular no
+instance is about to enter the function: a waiter whose predecessor has exited either gives up or enters) -/
 def quiescent (s : St) : Bool :=
   s.lockq.isEmpty && (cands s).all (fun e => (stepI s e).isNone) &&
-  s.calls.all Call.quiet
+  s.calls.all Call.quiet && s.insts.all (fun x => !(x.st == .waiting && predClosed s x))
 
 def step (s : St) : Ev → Option St
   | .quiesce pend run =>
